@@ -255,14 +255,14 @@ theorem fieldsOf_cons_ok (pos : Nat) (name tag : String) (emb : Bool) (t : Ty) (
     have e : pos % 65536 = o.number := by omega
     cases t <;> simp only [tyOK] at ht <;> try (exact absurd ht (by decide))
     case slice => exact absurd hns (by simp [isSlice])
-    case int k => cases k <;> simp_all [supportedKind, codecFor, fieldCodecOf, isStructBase, baseTy, codecOf, isEmb, wrapPtrs]
+    case int k => cases k <;> simp_all [supportedKind, codecFor, fieldCodecOf, isStructBase, embBase, baseTy, codecOf, isEmb, wrapPtrs]
     case ptr t' =>
       cases t' <;> simp only [ptrTarget, Bool.and_eq_true] at ht <;> try (exact absurd ht.1 (by decide))
       case int k =>
         cases k <;> simp only [tyOK, supportedKind] at ht <;> try (exact absurd ht.2 (by decide))
-        all_goals simp_all [codecFor, fieldCodecOf, isStructBase, baseTy, codecOf, isEmb, wrapPtrs]
-      all_goals simp_all [codecFor, fieldCodecOf, isStructBase, baseTy, codecOf, isEmb, wrapPtrs]
-    all_goals simp only [e, hz, hf, fieldCodecOf, isStructBase, baseTy, codecOf, codecFor, isEmb, Bool.false_or]
+        all_goals simp_all [codecFor, fieldCodecOf, isStructBase, embBase, baseTy, codecOf, isEmb, wrapPtrs]
+      all_goals simp_all [codecFor, fieldCodecOf, isStructBase, embBase, baseTy, codecOf, isEmb, wrapPtrs]
+    all_goals simp only [e, hz, hf, fieldCodecOf, isStructBase, embBase, baseTy, codecOf, codecFor, isEmb, Bool.false_or]
   | some s =>
     simp only [Bool.and_eq_true, decide_eq_true_eq, Bool.not_eq_true', beq_iff_eq] at hm
     obtain ⟨⟨⟨⟨hn, hz⟩, hr⟩, hf⟩, hfit⟩ := hm
@@ -278,20 +278,20 @@ theorem fieldsOf_cons_ok (pos : Nat) (name tag : String) (emb : Bool) (t : Ty) (
       cases k <;> simp only [supportedKind] at ht <;> try (exact absurd ht (by decide))
       all_goals
         cases w <;>
-        simp_all [fixedFits, isFixedWire, optOK, codecFor, fieldCodecOf, isStructBase, baseTy, codecOf, isEmb, wrapPtrs]
+        simp_all [fixedFits, isFixedWire, optOK, codecFor, fieldCodecOf, isStructBase, embBase, baseTy, codecOf, isEmb, wrapPtrs]
     case ptr t' =>
       cases t' <;> simp only [ptrTarget, Bool.and_eq_true] at ht <;> try (exact absurd ht.1 (by decide))
       case int k =>
         cases k <;> simp only [tyOK, supportedKind] at ht <;> try (exact absurd ht.2 (by decide))
         all_goals
           cases w <;>
-          simp_all [fixedFits, isFixedWire, optOK, codecFor, fieldCodecOf, isStructBase, baseTy, codecOf, isEmb, wrapPtrs]
+          simp_all [fixedFits, isFixedWire, optOK, codecFor, fieldCodecOf, isStructBase, embBase, baseTy, codecOf, isEmb, wrapPtrs]
       all_goals
         cases w <;>
-        simp_all [fixedFits, isFixedWire, optOK, codecFor, fieldCodecOf, isStructBase, baseTy, codecOf, isEmb, wrapPtrs]
+        simp_all [fixedFits, isFixedWire, optOK, codecFor, fieldCodecOf, isStructBase, embBase, baseTy, codecOf, isEmb, wrapPtrs]
     all_goals
       cases w <;>
-      simp_all [fixedFits, isFixedWire, optOK, codecFor, fieldCodecOf, isStructBase, baseTy, codecOf, isEmb, wrapPtrs]
+      simp_all [fixedFits, isFixedWire, optOK, codecFor, fieldCodecOf, isStructBase, embBase, baseTy, codecOf, isEmb, wrapPtrs]
 
 /-- **bridge, repeated fields**: a slice-typed field gets the slice codec around its element codec, is flagged
 `repeated`, and carries the field number in the codec -/
@@ -308,7 +308,7 @@ theorem fieldsOf_cons_slice (pos : Nat) (name tag : String) (emb : Bool) (e : Ty
   simp only [tyOK, elemTy, Bool.and_eq_true, Bool.not_eq_true'] at ht
   simp only [optOK, Bool.and_eq_true, Bool.not_eq_true'] at ho
   have hemb : isStructBase e = isStructTy e := by
-    cases e <;> simp_all [isStructBase, baseTy, isStructTy, isPtr, tyOK]
+    cases e <;> simp_all [isStructBase, embBase, baseTy, isStructTy, isPtr, tyOK]
   have hfc : ∀ n, fieldCodecOf n (.slice e) = (isStructTy e, true, .slice (codecOf e) n (codecOf e).wire (isStructTy e)) := by
     intro n
     cases e <;> simp_all [fieldCodecOf, tyOK]
@@ -1129,7 +1129,7 @@ example : tyOK (.struct exFields) = true ∧ hasTypes exFields exVals = true
   refine ⟨hty, hv, ?_⟩
   have hm : (lookupProtobuf "").bind parseStructTag = none := modelTag_empty
   have hc : fieldsOf 1 exFields = exCodec := by
-    simp [exFields, exInner, exCodec, fieldsOf, hm, fieldCodecOf, codecOf, isStructBase, baseTy]
+    simp [exFields, exInner, exCodec, fieldsOf, hm, fieldCodecOf, codecOf, isStructBase, embBase, baseTy]
   rw [hc]
   decide
 end Enc.Lemmas.ProtoWire
